@@ -185,3 +185,99 @@ Proof.
   - apply switch_classic_outcome.
   - rewrite (follow_switch U f r c Ht). destruct (switchArg r); [congruence|reflexivity].
 Qed.
+
+(* ------------------------------------------------------------------ C07, condition-less form *)
+
+Section NOCOND.
+Variable U : ufuns.
+Variable fr : node -> ctx -> ctx * option err.
+
+(* verdict of one `case L op R:` / `case helper(args):` of a condition-less switch *)
+Definition nocond_verdict (ch : node) (c : ctx) (ok : bool) : ctx * bool * option err * bool :=
+  match caseHlp ch with
+  | _ :: _ =>
+      match call_cond U c (caseHlp ch) (caseHlpArg ch) with
+      | (c', None) => (c', ok, Some ECondHlpNotFound, true)
+      | (c', Some b) => (c', b, None, false)
+      end
+  | [] =>
+      let sl := caseStaticL ch in
+      let sr := caseStaticR ch in
+      if sl && sr then (c, ok, Some ESenseless, true)
+      else if sr then let '(c', b) := ctx_cmp c (caseL ch) (caseOp ch) (trimq (caseR ch)) in (c', b, None, false)
+      else if sl then let '(c', b) := ctx_cmp c (caseR ch) (op_swap (caseOp ch)) (trimq (caseL ch)) in (c', b, None, false)
+      else
+        let '(c', _) := ctx_get c (caseR ch) [] in
+        match cerr c' with
+        | Some _ => (c', ok, None, false)
+        | None =>
+            match x2bytes c' (bufX c') with
+            | None => (c', ok, Some EUnknownType, true)
+            | Some b => let '(c'', b') := ctx_cmp c' (caseL ch) (caseOp ch) b in (c'', b', None, false)
+            end
+        end
+  end.
+
+Lemma switch_nocond_cons ch r c ok :
+  switch_nocond U fr (ch :: r) c ok =
+  if Z.eqb (typ ch) typeCase then
+    let '(c1, ok1, e, early) := nocond_verdict ch c ok in
+    if early then (c1, ok1, e, true)
+    else match cerr c1 with
+         | Some x => (c1, ok1, Some x, true)
+         | None => if ok1 then let '(c', e') := fr ch c1 in (c', true, e', false)
+                   else switch_nocond U fr r c1 ok1
+         end
+  else switch_nocond U fr r c ok.
+Proof. reflexivity. Qed.
+
+(* [l] is a run of children that are not matching cases (default arms are skipped by the scan) *)
+Inductive nc_no_match : list node -> ctx -> ctx -> Prop :=
+| ncn_nil c : nc_no_match [] c c
+| ncn_skip ch l c c' : Z.eqb (typ ch) typeCase = false -> nc_no_match l c c' -> nc_no_match (ch :: l) c c'
+| ncn_cons ch l c c1 e c' :
+    Z.eqb (typ ch) typeCase = true ->
+    nocond_verdict ch c false = (c1, false, e, false) -> cerr c1 = None ->
+    nc_no_match l c1 c' -> nc_no_match (ch :: l) c c'.
+
+(* the scan of a condition-less switch has exactly three outcomes: the body of
+   the first case whose comparison or helper holds (and no other), no match, or
+   an error in a case's operands / helper *)
+Inductive nc_outcome (l : list node) (c : ctx) : ctx * bool * option err * bool -> Prop :=
+| nco_first l1 ch l2 c1 c2 e :
+    l = l1 ++ ch :: l2 -> nc_no_match l1 c c1 -> Z.eqb (typ ch) typeCase = true ->
+    nocond_verdict ch c1 false = (c2, true, e, false) -> cerr c2 = None ->
+    nc_outcome l c (let '(c', e') := fr ch c2 in (c', true, e', false))
+| nco_none c' : nc_no_match l c c' -> nc_outcome l c (c', false, None, false)
+| nco_error l1 ch l2 c1 c2 ok e :
+    l = l1 ++ ch :: l2 -> nc_no_match l1 c c1 -> Z.eqb (typ ch) typeCase = true ->
+    nc_outcome l c (c2, ok, e, true).
+
+Theorem switch_nocond_outcome l : forall c, nc_outcome l c (switch_nocond U fr l c false).
+Proof.
+  induction l as [|ch l IH]; intro c.
+  - cbn [switch_nocond]. apply nco_none. constructor.
+  - rewrite switch_nocond_cons.
+    destruct (Z.eqb (typ ch) typeCase) eqn:Et.
+    2:{ pose proof (IH c) as IHc. destruct IHc as [l1 ch' l2 ca cb e El Hn Ht Hv Hc|c' Hn|l1 ch' l2 ca cb ok e El Hn Ht].
+        - rewrite El. apply (nco_first (ch :: l1 ++ ch' :: l2) c (ch :: l1) ch' l2 ca cb e); try assumption; [reflexivity|].
+          apply ncn_skip; assumption.
+        - apply nco_none. apply ncn_skip; assumption.
+        - rewrite El. apply (nco_error (ch :: l1 ++ ch' :: l2) c (ch :: l1) ch' l2 ca cb ok e); try assumption; [reflexivity|].
+          apply ncn_skip; assumption. }
+    destruct (nocond_verdict ch c false) as [[[c1 ok1] e1] ea1] eqn:V.
+    destruct ea1.
+    + apply (nco_error (ch :: l) c [] ch l c c1 ok1 e1); [reflexivity|constructor|exact Et].
+    + destruct (cerr c1) as [x|] eqn:Ec.
+      * apply (nco_error (ch :: l) c [] ch l c c1 ok1 (Some x)); [reflexivity|constructor|exact Et].
+      * destruct ok1.
+        -- apply (nco_first (ch :: l) c [] ch l c c1 e1); [reflexivity|constructor|exact Et|exact V|exact Ec].
+        -- pose proof (IH c1) as IHc. destruct IHc as [l1 ch' l2 ca cb e El Hn Ht Hv Hc|c' Hn|l1 ch' l2 ca cb ok e El Hn Ht].
+           ++ rewrite El. apply (nco_first (ch :: l1 ++ ch' :: l2) c (ch :: l1) ch' l2 ca cb e); try assumption; [reflexivity|].
+              eapply ncn_cons; eassumption.
+           ++ apply nco_none. eapply ncn_cons; eassumption.
+           ++ rewrite El. apply (nco_error (ch :: l1 ++ ch' :: l2) c (ch :: l1) ch' l2 ca cb ok e); try assumption; [reflexivity|].
+              eapply ncn_cons; eassumption.
+Qed.
+
+End NOCOND.
